@@ -2518,7 +2518,8 @@ char *_GD_ParseFragment(FILE *restrict fp, DIRFILE *D, struct parser_state *p,
       free(instring);
       continue;
     }
-    else if (n_cols < 2) /* any valid, non-blank line has at least two tokens */
+    else if (n_cols < 2 && !D->error) /* any valid, non-blank line has at least
+                                         two tokens; keep a tokeniser error */
       _GD_SetError(D, GD_E_FORMAT, GD_E_FORMAT_N_TOK, p->file, p->line, NULL);
 
     if (D->error == GD_E_OK)
